@@ -23,9 +23,9 @@ import (
 
 	"github.com/dadrus/heimdall/verif/engine"
 	"github.com/dadrus/heimdall/verif/engine/sched"
+	"github.com/dadrus/heimdall/verif/hx"
 	"github.com/dadrus/heimdall/verif/props/c18"
 	"github.com/dadrus/heimdall/verif/props/fsstart"
-	"github.com/dadrus/heimdall/verif/hx"
 )
 
 type Op struct {
@@ -57,6 +57,8 @@ var versions = map[string][]rdef{
 	"b1": {{"q1", "/b", ""}},
 	"b2": {{"q1", "/b", "http"}, {"q2", "/c", ""}},
 	"bx": {{"q1", "/x", ""}, {"q2", "/c", ""}},
+	// bm cannot be loaded at all: its second rule refers to a mechanism that does not exist
+	"bm": {{"q1", "/b", ""}, {"q2!", "/c", ""}},
 }
 
 type ScenarioDef struct {
@@ -104,6 +106,23 @@ var scenarios = []ScenarioDef{
 		Threads: [][]Op{{{Kind: "delete", Src: "A"}}, {{Kind: "add", Src: "B", Ver: "bx"}}, {find("/x"), find("/c")}},
 		Final:   []Op{find("/x"), find("/y"), find("/c")},
 	},
+	{
+		// a rule set that cannot be loaded is refused, and the changes that follow it, of the same and of other providers,
+		// take effect like after any other refusal
+		Name: "S7-unloadable-rule-set-then-further-changes",
+		Init: []Op{{Kind: "add", Src: "A", Ver: "a1"}},
+		Threads: [][]Op{{{Kind: "add", Src: "B", Ver: "bm"}, {Kind: "add", Src: "B", Ver: "b1"}}, {{Kind: "update", Src: "A", Ver: "a2"}},
+			{find("/x"), find("/b")}},
+		Final: []Op{find("/x"), find("/y"), find("/b"), find("/c")},
+	},
+}
+
+func x(cond bool, a, b string) string {
+	if cond {
+		return a
+	}
+
+	return b
 }
 
 type world struct {
@@ -130,14 +149,14 @@ func ruleSet(src, ver string) *rulecfg.RuleSet {
 
 	for _, d := range versions[ver] {
 		rs.Rules = append(rs.Rules, rulecfg.Rule{
-			ID:      d.id,
+			ID: d.id,
 			// hosts, methods and path expressions make the rule factory build every kind of matcher (state shared inside the
 			// factory between concurrently loading providers is in reach of the race pass)
 			Matcher: rulecfg.Matcher{
 				Routes: []rulecfg.Route{{Path: d.path}}, Scheme: d.scheme, Methods: []string{"GET", "POST"},
 				Hosts: []rulecfg.HostMatcher{{Type: "exact", Value: "h"}, {Type: "glob", Value: "*.internal"}},
 			},
-			Execute: []config.MechanismConfig{{"authenticator": "anon"}},
+			Execute: []config.MechanismConfig{{"authenticator": x(strings.HasSuffix(d.id, "!"), "does-not-exist", "anon")}},
 		})
 	}
 
